@@ -38,6 +38,10 @@ type c05Case struct {
 	// join); ImplOrder is the order in which a, b, c, d are answered
 	Implicit  bool     `json:"implicit,omitempty"`
 	ImplOrder []string `json:"impl_order,omitempty"`
+	// Via: every branch runs through a gateway of another kind with one incoming and one outgoing flow ("xor",
+	// "and") between its task and the join (or its end event): such a gateway forwards the token, it neither
+	// starts nor ends anything the inclusive join has to know about
+	Via string `json:"via,omitempty"`
 }
 
 func (c *c05Case) activated() []int { return c.activatedFor(c.Truth) }
@@ -119,11 +123,21 @@ func c05Graph(c *c05Case) *gen.Graph {
 		} else {
 			g.Connect(of, b, &gen.Cond{Kind: "var", Var: fmt.Sprintf("c%d", i), Op: ">", Val: 0})
 		}
+		from := b
+		if c.Via != "" {
+			kind := gen.Xor
+			if c.Via == "and" {
+				kind = gen.And
+			}
+			via := g.Add(kind, fmt.Sprintf("via%d", i), "")
+			g.Connect(b, via, nil)
+			from = via
+		}
 		if c.Joins>>i&1 == 1 {
-			g.Connect(b, oj, nil)
+			g.Connect(from, oj, nil)
 		} else {
 			e := g.Add(gen.End, fmt.Sprintf("e%d", i), "")
-			g.Connect(b, e, nil)
+			g.Connect(from, e, nil)
 		}
 	}
 	return g
@@ -156,6 +170,18 @@ func c05Cases(tier string, seed uint64) []fw.Case {
 						}
 						cc.Name = fmt.Sprintf("n%d-t%d-d%v@%d-j%d-p%d", n, truth, def, c.DefPos, joins, pi)
 						cs = append(cs, fw.MkCase("stepwise", &cc))
+					}
+					// the same with a forwarding gateway of another kind on every branch
+					if len(act) >= 2 && joins != 0 && (tier == "thorough" || (truth+joins)%3 == 0) {
+						for pi, p := range perms {
+							cc := c
+							cc.Via = []string{"xor", "and"}[(truth+joins/3+pi)%2]
+							for _, k := range p {
+								cc.Order = append(cc.Order, act[k])
+							}
+							cc.Name = fmt.Sprintf("via-%s-n%d-t%d-d%v@%d-j%d-p%d", cc.Via, n, truth, def, c.DefPos, joins, pi)
+							cs = append(cs, fw.MkCase("via", &cc))
+						}
 					}
 					// second activation in a loop: needs a join that releases in the first pass
 					joining := 0
